@@ -112,8 +112,12 @@ class Kernel:
     def after(self, delay, fn, label=''):
         return self.at(self.now + max(0.0, delay), fn, label)
 
+    fixed_latency = None
+
     def latency(self, lo=1, hi=8, label='lat'):
         """A tape-drawn latency in ticks, at least ``lo`` ticks."""
+        if self.fixed_latency is not None:
+            return self.fixed_latency * TICK
         return (lo + self.tape.draw(hi - lo + 1, label)) * TICK
 
     # -- threads -----------------------------------------------------------
